@@ -3433,6 +3433,11 @@ EGLPNUM_TYPENAME_QSLIB_INTERFACE int EGLPNUM_TYPENAME_QSget_column_index (
 
 	rval = EGLPNUM_TYPENAME_ILLlib_colindex (p->lp, name, colindex);
 	CHECKRVALG (rval, CLEANUP);
+	if (*colindex < 0)
+	{
+		rval = 1;										/* no column of that name */
+		ILL_CLEANUP;
+	}
 
 CLEANUP:
 
@@ -3453,6 +3458,11 @@ EGLPNUM_TYPENAME_QSLIB_INTERFACE int EGLPNUM_TYPENAME_QSget_row_index (
 
 	rval = EGLPNUM_TYPENAME_ILLlib_rowindex (p->lp, name, rowindex);
 	CHECKRVALG (rval, CLEANUP);
+	if (*rowindex < 0)
+	{
+		rval = 1;										/* no row of that name */
+		ILL_CLEANUP;
+	}
 
 CLEANUP:
 
